@@ -13,7 +13,14 @@ It decides (trim, start) = (F, F) (full series) and (T, F) (first npts samples).
 option combination the stated relations are checked: length npts when trimmed, batch row =
 single-travel-time result on the common prefix, cumulative absolute change non-decreasing
 with increments |energy increments|, identically zero for zero travel time at a nodal
-surface with equal reductions, alpha^2 scaling.
+surface with equal reductions, alpha^2 scaling.  The cumulative series is also compared with the
+energy series returned for the same options INCLUDING its first element (change from rest, or 0).
+The travel-time and reduction arrays are built once per travel-time set and the SAME objects are
+passed to every call of the set (all options, all three functions, the alpha runs) and
+snapshot-checked after every call: a query leaves its arguments alone.  The functions are also
+run on AccSignal objects with a history (velocity read before; displacement/velocity series
+regenerated with the rectangle rule before): the result is a function of the record, not of
+what the object has cached.
 
 'shift' cases: every non-zero word over {-1,0,2} of length 2..4(5) x every shift vector over
 {-2..2}^{1..3} x clip in {default, none, start, end, both} for put_array_in_2d_array; every
@@ -27,7 +34,7 @@ import numpy as np
 
 from ..target import eqsig, surface, time_shift
 from ..result import Res
-from ..compare import words
+from ..compare import words, snapshot
 
 SIGMA = (-1, 0, 2)
 DT = '0.5'
@@ -45,6 +52,8 @@ ALPHAS = (-1, 2, 3)
 SHIFT_VALS = (-2, -1, 0, 1, 2)
 CLIPS = ('default', 'none', 'start', 'end', 'both')
 JOIN_DTS = (0.5, 0.25)
+# object histories: public AccSignal operations performed on the object BEFORE it is handed to the surface functions
+HISTORIES = ('velocity-read', 'rect-series')
 FNS = (('energy', 'calc_surface_energy'), ('cum', 'calc_cum_abs_surface_energy'), ('motions', 'get_time_shift_motions'))
 
 
@@ -64,20 +73,25 @@ def build(tier, seed):
         'rule': 'energy: all non-zero words over {-1,0,2} of length 2..%d, dt = 0.5, x nodal in {T,F} x reductions '
                 '{(1,1), (0.8,0.5), per-row arrays with up != down} (one pool case each) x travel-time sets {each of '
                 '%s singly, batch A = all ascending, batch B = (1.1, 0.3, 0)} x (trim,start) in {T,F}^2 x stt in %s x '
-                '{calc_surface_energy, calc_cum_abs_surface_energy, get_time_shift_motions} (+ alpha in %s); '
+                '{calc_surface_energy, calc_cum_abs_surface_energy, get_time_shift_motions} (+ alpha in %s); the travel-time / '
+                'reduction arrays of a set are the same objects in all its calls (snapshot after every call); + every set x the '
+                'three functions (full series) on AccSignal objects with history in %s; '
                 'shift helpers: all non-zero words of length 2..%d x all shift vectors over {-2..2}^{1..3} x clip in %s; '
                 'joins: all shift vectors over {0..2}^{1..3} x {add,sub} x {values, signal with dt in %s}; '
                 'non-trivial = word not identically zero (every enumerated word)'
-                % (L, list(TTS), list(STTS), list(ALPHAS), Ls, list(CLIPS), list(JOIN_DTS)),
+                % (L, list(TTS), list(STTS), list(ALPHAS), list(HISTORIES), Ls, list(CLIPS), list(JOIN_DTS)),
         'bounds': {'alphabet': SIGMA, 'max_len_energy': L, 'max_len_shift': Ls, 'dt': DT, 'travel_times': TTS,
                    'batches': BATCHES, 'reductions': {'unit': [1, 1], 'scalar': [0.8, 0.5],
                                                       'array_up': ARR_UP, 'array_down': ARR_DOWN},
-                   'stt': STTS, 'trim_start': OPTS, 'alphas': ALPHAS, 'shift_values': SHIFT_VALS,
+                   'stt': STTS, 'trim_start': OPTS, 'alphas': ALPHAS, 'object_histories': HISTORIES,
+                   'argument_arrays': 'one object per travel-time set, reused by all calls', 'shift_values': SHIFT_VALS,
                    'shift_vector_len': [1, 3], 'clip': CLIPS, 'tol': 1e-12},
         'required_classes': ['nodal', 'anti-nodal', 'red-unit', 'red-scalar', 'red-array', 'tt-zero', 'tt-subsample',
                              'tt-fractional', 'tt-integer', 'single', 'batch', 'trim', 'start', 'stt>0',
                              'reference-compared', 'energy-has-negative-values', 'cum-increases', 'cum-identically-zero',
                              'row-vs-single', 'row-shorter-than-batch', 'alpha-scaling',
+                             'argument-array-reused', 'cum-first-sample-nonzero-energy',
+                             'history-velocity-read', 'history-rect-series',
                              'clip-default', 'clip-none', 'clip-start', 'clip-end', 'clip-both',
                              'shift-negative', 'shift-positive', 'shift-mixed-sign', 'join-add', 'join-sub',
                              'join-signal'],
@@ -87,6 +101,10 @@ def build(tier, seed):
                         'reference decides (trim,start) = (F,F) and (T,F); for start=True only the stated relations '
                         '(length when trimmed, row = single, monotonicity, zero, alpha^2) are checked - the property '
                         'does not define the start alignment itself',
+                        'first element of the cumulative absolute change: |first energy of the series returned for the same '
+                        'options| (change from rest) or 0 (no change inside the series yet) are both accepted',
+                        'a query leaves its argument arrays unchanged (bit-for-bit); object histories: velocity property read, '
+                        'generate_displacement_and_velocity_series(trap=False) called - both leave the record itself unchanged',
                         'join helpers: non-negative integer shifts; signal variant with time shifts that are exact '
                         'multiples of a dyadic dt'],
     }
@@ -151,14 +169,14 @@ def ref_join(values, shifts, jtype):
 
 # ------------------------------------------------------------------------------------------
 def red_for(red, tts):
-    """(exact up list, exact down list, float/array up argument factory, down argument factory)."""
+    """(exact up list, exact down list, up argument, down argument).  The arguments are built ONCE here; the caller
+    passes the same objects to every call of the travel-time set."""
     if red == 'array':
         ups = [Fraction(ARR_UP[t]) for t in tts]
         downs = [Fraction(ARR_DOWN[t]) for t in tts]
-        return ups, downs, (lambda: np.array([float(ARR_UP[t]) for t in tts])), \
-            (lambda: np.array([float(ARR_DOWN[t]) for t in tts]))
+        return ups, downs, np.array([float(ARR_UP[t]) for t in tts]), np.array([float(ARR_DOWN[t]) for t in tts])
     u, d = SCALAR_RED[red]
-    return [Fraction(u)] * len(tts), [Fraction(d)] * len(tts), (lambda: float(u)), (lambda: float(d))
+    return [Fraction(u)] * len(tts), [Fraction(d)] * len(tts), float(u), float(d)
 
 
 def row_of(out, i, batch):
@@ -191,6 +209,7 @@ def run_energy(case):
     ttsets = [('single', (t,)) for t in TTS] + [('batch-' + k, v) for k, v in sorted(BATCHES.items())]
 
     sigs = {}
+    hsigs = {}          # history name -> the AccSignal of this case that carries the history
 
     def sig_for(warr):
         # one AccSignal per distinct record of the case (the functions only read values, dt, npts;
@@ -200,23 +219,42 @@ def run_energy(case):
             sigs[k] = eqsig.AccSignal(np.array(warr, dtype=float), dtf)
         return sigs[k]
 
-    def run(fn_attr, claim, sub, warr, tts, upf, downf, trim, start, stt, batch):
+    def make_sig(warr, hist):
+        sg = eqsig.AccSignal(np.array(warr, dtype=float), dtf)
+        if hist == 'velocity-read':
+            sg.velocity                                                   # fills the object's velocity cache
+        elif hist == 'rect-series':
+            sg.generate_displacement_and_velocity_series(trap=False)      # cache now holds the rectangle-rule series
+        return sg
+
+    def run(fn_attr, claim, sub, asig, args, trim, start, stt):
+        """One call with the shared argument objects `args` = (travel times, up_red, down_red); afterwards the
+        arguments must be bit-for-bit what they were (they are restored if not, so that the remaining
+        comparisons of the case keep their meaning)."""
         fn = getattr(surface, fn_attr, None)
         if fn is None:
             r.fail(claim, sub, 'surface.%s does not exist' % fn_attr)
             return False, None
-        asig = sig_for(warr)
-        if batch or red == 'array':
-            tta = np.array([float(t) for t in tts])
-        else:
-            tta = float(tts[0])
-        return r.call(claim, sub, fn, asig, tta, nodal=nodal, up_red=upf(), down_red=downf(), stt=stt, trim=trim,
-                      start=start)
+        before = [(name, x, snapshot(x), x.copy()) for name, x in zip(('travel_times', 'up_red', 'down_red'), args)
+                  if isinstance(x, np.ndarray)]
+        res = r.call(claim, sub, fn, asig, args[0], nodal=nodal, up_red=args[1], down_red=args[2], stt=stt, trim=trim,
+                     start=start)
+        for name, x, snap, saved in before:
+            r.cls('argument-array-reused')
+            r.n_cmp += 1
+            if snapshot(x) != snap:
+                r.fail('arguments-unchanged', dict(sub, fn=fn_attr, argument=name),
+                       'the caller\'s %s array was modified by the call' % name, observed=x, expected=saved)
+                x[...] = saved
+        return res
 
     for setname, tts in ttsets:
         batch = setname != 'single'
         r.cls('batch' if batch else 'single')
-        ups, downs, upf, downf = red_for(red, tts)
+        ups, downs, up_arg, down_arg = red_for(red, tts)
+        # the argument objects of this travel-time set: built once, the same objects go into every call below
+        tt_arg = np.array([float(t) for t in tts]) if (batch or red == 'array') else float(tts[0])
+        args = (tt_arg, up_arg, down_arg)
         delays = [2 * Fraction(t) / dt for t in tts]
         total_len = n + ffloor(max(delays))                  # pad = whole samples of the largest delay
         for t, dl in zip(tts, delays):
@@ -230,6 +268,38 @@ def run_energy(case):
                 else:
                     r.cls('tt-integer')
         refs = [ref_series(a, dt, Fraction(t), nodal, u, d, total_len) for t, u, d in zip(tts, ups, downs)]
+        # objects with a history: the full series (trim = start = False, where stt plays no role) against the same reference
+        for hist in HISTORIES:
+            r.states += 1
+            r.cls('history-' + hist)
+            if hist not in hsigs:
+                hsigs[hist] = make_sig(w, hist)
+            for key, attr in FNS:
+                sub = {'w': w, 'nodal': nodal, 'red': red, 'tt': [float(t) for t in tts] if batch else float(tts[0]),
+                       'trim': False, 'start': False, 'stt': 0.0, 'fn': key, 'history': hist}
+                ok, out = run(attr, key, sub, hsigs[hist], args, False, False, 0.0)
+                if not ok:
+                    continue
+                try:
+                    rows = [np.array(row_of(out, i, batch), dtype=float) for i in range(len(tts))]
+                    if batch and np.asarray(out).shape[0] != len(tts):
+                        raise ValueError('batch result has %d rows for %d travel times' % (np.asarray(out).shape[0], len(tts)))
+                except Exception as e:
+                    r.fail(key + '.shape', sub, 'malformed result: %s' % e, observed=out)
+                    continue
+                for i, t in enumerate(tts):
+                    s2 = dict(sub, row=i) if batch else sub
+                    acc_ref, e_ref = refs[i]
+                    r.transitions += 1
+                    if key == 'energy':
+                        r.expect_close('energy.definition', s2, rows[i], fl(e_ref), rtol=1e-12, atol=at_e)
+                    elif key == 'motions':
+                        r.expect_close('motions.definition', s2, rows[i], fl(acc_ref), rtol=1e-12, atol=at_acc)
+                    else:
+                        cref = [Fraction(0)]                     # the full reference series starts at rest: e_ref[0] = 0
+                        for j in range(1, total_len):
+                            cref.append(cref[-1] + abs(e_ref[j] - e_ref[j - 1]))
+                        r.expect_close('cum.definition', s2, rows[i], fl(cref), rtol=1e-12, atol=at_e)
         for (trim, start) in OPTS:
             for stt in STTS:
                 r.states += 1
@@ -244,7 +314,7 @@ def run_energy(case):
                 outs = {}
                 for key, attr in FNS:
                     sub = dict(sub0, fn=key)
-                    ok, out = run(attr, key, sub, w, tts, upf, downf, trim, start, stt, batch)
+                    ok, out = run(attr, key, sub, sig_for(w), args, trim, start, stt)
                     if not ok:
                         continue
                     try:
@@ -328,12 +398,26 @@ def run_energy(case):
                             r.fail('cum.increments', s2, 'malformed: %s' % e)
                             continue
                         r.expect_close('cum.increments', s2, got, want, rtol=1e-12, atol=at_e, scale=sc)
+                        # ... including the first element: the change accumulated at the first returned sample is that
+                        # sample's energy measured from rest (the series starts from zero energy), or nothing at all
+                        # (no change inside the returned series yet) - both conventions are accepted
+                        try:
+                            c0 = float(outs['cum'][i][0])
+                            e0 = abs(float(outs['energy'][i][0]))
+                        except Exception:
+                            continue            # empty or malformed rows are reported by the shape / length claims
+                        if e0 > at_e:
+                            r.cls('cum-first-sample-nonzero-energy')
+                        tol0 = at_e + 1e-12 * sc
+                        r.expect('cum.first', s2, abs(c0 - e0) <= tol0 or abs(c0) <= tol0,
+                                 'first element of the cumulative absolute change is neither |first energy| nor 0',
+                                 observed=c0, expected=e0)
                 # alpha^2 scaling of the cumulative absolute change
                 if 'cum' in outs:
                     for alpha in ALPHAS:
                         sub = dict(sub0, alpha=alpha)
-                        ok, out = run('calc_cum_abs_surface_energy', 'cum.scaling', sub, [alpha * v for v in w], tts, upf,
-                                      downf, trim, start, stt, batch)
+                        ok, out = run('calc_cum_abs_surface_energy', 'cum.scaling', sub, sig_for([alpha * v for v in w]), args,
+                                      trim, start, stt)
                         if not ok:
                             continue
                         r.transitions += 1
@@ -345,7 +429,7 @@ def run_energy(case):
                             r.fail('cum.scaling', sub, 'malformed result: %s' % e, observed=out)
                             continue
                         r.expect_close('cum.scaling', sub, got, want, rtol=1e-12, atol=at_e * alpha * alpha)
-    for k, sg in sorted(sigs.items()):
+    for k, sg in sorted(sigs.items()) + [(tuple(w), hsigs[h]) for h in HISTORIES if h in hsigs]:
         try:
             same = bool(np.array_equal(np.asarray(sg.values), np.array(k, dtype=float))) and sg.dt == dtf
         except Exception:
@@ -438,5 +522,8 @@ def snippet(case, v):
             "elif isinstance(tt, list): tt = np.array(tt)\n"
             "kw = dict(nodal=sub['nodal'], up_red=up, down_red=down, stt=sub['stt'], trim=sub['trim'], start=sub['start'])\n"
             "a = eqsig.AccSignal(w, %s)\n"
+            "if sub.get('history') == 'velocity-read': a.velocity\n"
+            "if sub.get('history') == 'rect-series': a.generate_displacement_and_velocity_series(trap=False)\n"
             "print('energy ', sf.calc_surface_energy(a, tt, **kw))\nprint('cum    ', sf.calc_cum_abs_surface_energy(a, tt, **kw))\n"
-            "print('motions', sf.get_time_shift_motions(a, tt, **kw))\n" % (sub, ARR_UP, ARR_DOWN, DT))
+            "print('motions', sf.get_time_shift_motions(a, tt, **kw))\n"
+            "print('arguments after the calls (same objects in all three):', tt, up, down)\n" % (sub, ARR_UP, ARR_DOWN, DT))
